@@ -183,7 +183,9 @@ def feed_and_check(v, frags, groups, cmd_bytes, data_bytes, pc_id, cls_name, mod
     if data_bytes:
         ds = msg.data_set
         if mode == 'mem':
-            if ds != data_bytes:
+            if not isinstance(ds, (bytes, bytearray)) and ds is not None:
+                problems.append('in-memory reception handed over %s instead of the data set bytes' % type(ds).__name__)
+            elif ds != data_bytes:
                 problems.append('data set bytes differ (%d vs %d bytes)' % (len(ds or b''), len(data_bytes)))
         else:
             if not hasattr(ds, 'read'):
